@@ -744,6 +744,7 @@ def oracle_permutation(sc):
     """ a list run in a permuted order returns the permuted members """
     import random
     if sc['target'] != 'list' or len(sc['members']) < 2: return []
+    if sc.get('reseed'): return []   # an explicitly reseeded list gets seed + position: position dependent by definition
     rng = random.Random(len(canon(sc)))
     perm = rng.sample(range(len(sc['members'])), len(sc['members']))
     sc2 = dict(sc, members=[sc['members'][j] for j in perm], mode='serial' if sc['mode'] == 'debug' else sc['mode'])
